@@ -184,6 +184,51 @@ pub fn check_read(c: &ReadCase, rep: &mut Report) {
         }
         results.push((v, val, pos, after));
     }
+    // the tables' own length look-up (len_table_*): when it answers, it must give the codeword
+    // length and skip exactly the codeword; when it declines, it must not move
+    let probe = match c.table {
+        Table::Gamma => CodeOp::GammaP(true),
+        Table::Delta => CodeOp::DeltaP(true, false),
+        Table::Zeta3 => CodeOp::Zeta3P(true),
+    };
+    if let Ok(true) = diag::tables_allowed(c.cfg.kind, &probe) {
+        let mut h = make_reader(c.cfg, &c.image);
+        for op in &c.prefix {
+            let _ = match op {
+                ROp::Read(n) => guard(|| h.r.read_bits(*n).map(|_| ())),
+                ROp::Peek(n) => guard(|| h.r.peek_bits(*n).map(|_| ())),
+                ROp::Skip(n) => guard(|| h.r.skip_bits(*n)),
+                _ => Out::Ok(()),
+            };
+        }
+        let got: Out<Option<usize>> = guard_v(|| {
+            use std::marker::PhantomData;
+            let r = h.r.as_mut();
+            match (e, c.table) {
+                (En::BE, Table::Gamma) => lib::gamma_tables::len_table_be(&mut DynR::<lib::BE>(r, PhantomData)),
+                (En::LE, Table::Gamma) => lib::gamma_tables::len_table_le(&mut DynR::<lib::LE>(r, PhantomData)),
+                (En::BE, Table::Delta) => lib::delta_tables::len_table_be(&mut DynR::<lib::BE>(r, PhantomData)),
+                (En::LE, Table::Delta) => lib::delta_tables::len_table_le(&mut DynR::<lib::LE>(r, PhantomData)),
+                (En::BE, Table::Zeta3) => lib::zeta_tables::len_table_be(&mut DynR::<lib::BE>(r, PhantomData)),
+                (En::LE, Table::Zeta3) => lib::zeta_tables::len_table_le(&mut DynR::<lib::LE>(r, PhantomData)),
+            }
+        });
+        let pos = guard(|| h.r.bit_pos().unwrap());
+        rep.eval(1);
+        let clen = expected.1 - p0;
+        let ok = match &got {
+            Out::Ok(Some(l)) => *l == clen && pos == Out::Ok(expected.1 as u64),
+            Out::Ok(None) => pos == Out::Ok(p0 as u64),
+            _ => false,
+        };
+        if !ok {
+            rep.violation(
+                &format!("{}|len_table|{}", sigbase, if got.is_ok() { "wrong-length-or-position".to_string() } else { got.class() }),
+                || format!("len_table at bit {} ({}): {} and position {}; the codeword has {} bits and ends at {}", p0, c.what, got.show(), pos.show(), clen, expected.1),
+                || c.to_kv(),
+            );
+        }
+    }
     // pairwise agreement (also when the model itself were off)
     for w in results.windows(2) {
         rep.eval(1);
